@@ -8,7 +8,7 @@ From Coq Require Import NArith List Bool Arith Lia.
 From PLV Require Import Base.PyStr Tok.PState Tok.Tokenizer Parse.Nodes Parse.Parser Parse.ParseWire
                         Proofs.PyStrFacts Proofs.ParserMono Proofs.ParserSpansStep Proofs.ParserErrorsBase
                         Doc.DocGrammar Proofs.RoundTripTok Proofs.RoundTripRules Proofs.RoundTrip
-                        Proofs.FaultRules Proofs.FaultTok Proofs.FaultDoc Proofs.FaultPath.
+                        Proofs.FaultRules Proofs.FaultTok Proofs.FaultDoc Proofs.FaultPath Proofs.PrefixSim.
 Import ListNotations.
 
 (** * Stray closing tokens *)
@@ -34,7 +34,7 @@ Definition stray_ok (o : genopts) (c : stray) : Prop :=
   match c with
   | SBrace => match g_stop o with SBraceClose _ => False | _ => True end
   | SMClose k => match g_stop o with SMathClose _ cd => cd <> m_close k | _ => True end
-  | SEnd _ => True
+  | SEnd x => match g_stop o with SEndEnv nm => x <> nm | _ => True end
   end.
 
 Lemma stray_text_hd c : exists h r, stray_text c = h :: r /\ is_space h = false.
@@ -91,7 +91,7 @@ Section Stray.
     - right. left. auto.
   Qed.
 
-  Lemma stray_nostop ps o c p e pre : opts_ok ps o -> stray_ok o c ->
+  Lemma stray_nostop ps o c p e pre : opts_ok2 ps o -> stray_ok o c ->
     stop_matches (g_stop o) (mk (stray_tk c) (stray_arg c) p e pre []) = false.
   Proof.
     intros (_ & _ & _ & ST) SO. unfold stray_ok in SO.
@@ -103,10 +103,13 @@ Section Stray.
         destruct (str_eqb (m_close k) cc) eqn:E; [|apply andb_false_r].
         apply pe_str_eqb_eq in E. congruence.
       + cbn. destruct k'; try discriminate; reflexivity.
+    - destruct c as [|k|x]; [reflexivity|cbn; destruct k; reflexivity|].
+      cbn [stop_matches mk tk targ stray_tk stray_arg tokkind_eqb andb].
+      destruct (str_eqb x nm) eqn:E; [|reflexivity]. apply pe_str_eqb_eq in E. congruence.
   Qed.
 
   (** ** the collector at the stray token, either mode *)
-  Lemma stray_step tol ps o st pos fws c g n : StdE cx ps -> opts_ok ps o -> ws_ok fws = true ->
+  Lemma stray_step tol ps o st pos fws c g n : StdE cx ps -> opts_ok2 ps o -> ws_ok fws = true ->
     stray_wf c -> stray_ok o c -> skipn pos s = fws ++ stray_text c ++ g ->
     run s tol cx (S n) (TCollect ps o st pos)
     = PErr (fail_err ps st pos (stray_tk c) (stray_arg c) (pos + length fws + length (stray_text c)) fws []
@@ -121,22 +124,22 @@ Section Stray.
     - apply stray_rejected; [exact (proj1 (proj1 SE)) | exact WF].
   Qed.
 
-  (** ** items, then the stray token (strict mode) *)
-  Lemma stray_collect ps o st pos l1 fws c g : StdE cx ps -> opts_ok ps o ->
+  (** ** items, then the stray token (either mode) *)
+  Lemma stray_collect tol ps o st pos l1 fws c g : StdE cx ps -> opts_ok2 ps o ->
     ok_items cx ps l1 (hd_error (fws ++ stray_text c)) = true -> ws_ok fws = true ->
     stray_wf c -> stray_ok o c ->
     skipn pos s = unparse_items l1 ++ fws ++ stray_text c ++ g ->
     let q := pos + length (unparse_items l1) in
-    run s false cx (1 + 8 * length (unparse_items l1)) (TCollect ps o st pos)
+    run s tol cx (1 + 8 * length (unparse_items l1)) (TCollect ps o st pos)
     = PErr (fail_err ps (fst (absorb cx ps pos st l1)) q (stray_tk c) (stray_arg c)
                      (q + length fws + length (stray_text c)) fws [] (stray_what c))
            (q + length fws + length (stray_text c)).
   Proof.
     intros SE OK OKL W WF SO SK q.
     pose proof (skipn_shift _ _ _ _ SK) as SK1. fold q in SK1.
-    pose proof (stray_step false ps o (fst (absorb cx ps pos st l1)) q fws c g 0 SE OK W WF SO SK1) as H.
+    pose proof (stray_step tol ps o (fst (absorb cx ps pos st l1)) q fws c g 0 SE OK W WF SO SK1) as H.
     rewrite <- (hd_error_stray fws c g) in OKL.
-    refine (items_sim s cx (lsize l1) l1 (le_n _) ps o st pos _ 1 _ (proj1 SE) OK _ OKL SK H). discriminate.
+    refine (items_sim_t s cx tol l1 ps o st pos _ 1 _ (proj1 SE) OK _ OKL SK H). discriminate.
   Qed.
 End Stray.
 
@@ -188,8 +191,8 @@ Proof.
   assert (OKP' : ok_lpath cx ps0 path (hd_error (unparse_items l1 ++ fws ++ stray_text c ++ g)) = true).
   { rewrite app_assoc, hd_error_stray, <- app_assoc. exact OKP. }
   pose proof (opts_ok_lp cx path ps0 top_opts _ (opts_ok_top ps0) OKP') as OKi.
-  pose proof (stray_collect s cx (lp_state cx ps0 path) (lp_opts cx ps0 top_opts path) (lp_st cs_empty path)
-                (0 + length (lp_text path)) l1 fws c g SEi OKi OKL W WF (stray_ok_path cx ps0 path c CH) SK1) as H.
+  pose proof (stray_collect s cx false (lp_state cx ps0 path) (lp_opts cx ps0 top_opts path) (lp_st cs_empty path)
+                (0 + length (lp_text path)) l1 fws c g SEi (opts_ok_2 _ _ OKi) OKL W WF (stray_ok_path cx ps0 path c CH) SK1) as H.
   cbn zeta in H.
   destruct (lpath_err s cx path ps0 top_opts cs_empty 0 _ _ _ _ (proj1 SE0) (opts_ok_top ps0) OKP' SK H)
     as (e1 & H1 & P1 & W1).
